@@ -129,7 +129,12 @@ def gen_case(seed, tier):
         # (with a sentinel, the source may contain the sentinel value itself: it ends the stream only
         # when it is what the SUBSPEC yields for an element, e.g. 'inc' turns -1 into 0 and goes on)
         lo = -1 if chain['sentinel'] == -1 and rng.random() < 0.5 else 0
-        sources.append({'items': [rng.randint(lo, 9) for _ in range(rng.randint(0 if not inf else 1, 12))], 'inf': inf})
+        items = [rng.randint(lo, 9) for _ in range(rng.randint(0 if not inf else 1, 12))]
+        if lo == -1 and rng.random() < 0.5:
+            # ... or something EQUAL to the sentinel that is not the sentinel (-1.0 == -1): the sentinel
+            # is an identity, like iter(callable, sentinel)'s is not
+            items = [-1.0 if x == -1 and rng.random() < 0.6 else x for x in items]
+        sources.append({'items': items, 'inf': inf})
     mode = rng.choice(['prefix', 'prefix', 'alternate', 'builder', 'builder', 'fault', 'abandon', 'invoke', 'resume'])
     case = {'prop': PROP, 'seed': seed, 'knobs': simrun.draw_knobs(rng), 'chain': chain, 'sources': sources,
             'mode': mode}
